@@ -187,6 +187,43 @@ Proof.
   destruct (lookup Nat.eqb t i); cbn; split; congruence.
 Qed.
 
+(* the reconcile field of the record of an id (the wait machine changes nothing else) *)
+Definition rcl (t : table id) (i : id) : option reconcile := option_map r_rec (lookup Nat.eqb t i).
+Definition rc (s : rst) (i : id) : option reconcile := rcl (r_tbl s) i.
+
+Lemma rcl_set_status t n j :
+  rcl (set_status Nat.eqb t n) j = if Nat.eqb (r_id n) j then Some (r_rec n) else rcl t j.
+Proof.
+  unfold rcl. rewrite (lookup_set_status id Nat.eqb nat_eqb_spec). unfold spec_set.
+  unfold id in *. destruct (Nat.eqb (r_id n) j); reflexivity.
+Qed.
+
+Lemma rc_rec_reconcile s i r j :
+  rc (rec_reconcile s i r) j = if Nat.eqb i j then option_map (fun _ => r) (rc s j) else rc s j.
+Proof.
+  unfold rec_reconcile, rc.
+  pose proof (set_reconcile_some id Nat.eqb nat_eqb_spec (r_tbl s) i r) as H. unfold id in *.
+  destruct (set_reconcile Nat.eqb (r_tbl s) i r) as [t|] eqn:E.
+  - destruct H as [_ [H2 _]]. cbn [set_tbl r_tbl]. unfold rcl. rewrite H2. unfold spec_set_rec.
+    destruct (Nat.eqb i j) eqn:Eij; [|reflexivity].
+    apply Nat.eqb_eq in Eij. subst j. destruct (lookup Nat.eqb (r_tbl s) i); reflexivity.
+  - destruct (Nat.eqb i j) eqn:Eij; [|reflexivity].
+    apply Nat.eqb_eq in Eij. subst j. unfold rcl. rewrite H. reflexivity.
+Qed.
+
+Lemma rc_tv_some s j x : tv s j = Some x -> exists r, rc s j = Some r.
+Proof.
+  unfold tv, tvl, rc, rcl. destruct (lookup Nat.eqb (r_tbl s) j) as [r|]; [|discriminate].
+  intros _. exists (r_rec r). reflexivity.
+Qed.
+
+Lemma with_reconcile_rc t r i : NoDup (tkeys t) -> (In i (with_reconcile t r) <-> rcl t i = Some r).
+Proof.
+  intros ND. rewrite (with_reconcile_spec id Nat.eqb nat_eqb_spec) by exact ND. unfold rcl, id in *. split.
+  - intros [x [E <-]]. rewrite E. reflexivity.
+  - intros E. destruct (lookup Nat.eqb t i) as [x|]; [|discriminate]. cbn in E. injection E as E. exists x. auto.
+Qed.
+
 (* ---- the property as a predicate on clusters --------------------------------- *)
 Section Tracked.
   Variable sc : scenario.
